@@ -174,6 +174,9 @@ def run(rep):
             plan.append(("tree_changes[%s]" % key, full, r["changes"][key]))
         lines.append("flatten %s %s" % (r["ida"], st))
         plan.append(("iter_tree_contents", full, r["flat_a"]))
+        for side in ("a", "b"):
+            lines.append("build %s" % r["items_" + side])
+            plan.append(("commit_tree vs TreeBuild.commit_tree", dict(full, side=side), r["struct_" + side]))
         for p in q["probes"]:
             lines.append("look %s %s %s" % (r["ida"], p, st))
             v = r["look"][p]
@@ -185,6 +188,8 @@ def run(rep):
     kinds = {}
     for (fn, case, want), m in zip(plan, mres):
         kinds[fn.split("[")[0]] = kinds.get(fn.split("[")[0], 0) + 1
+        if fn.startswith("commit_tree vs"):
+            m = m.split(" | ")[0]          # the structure; the model's own flattening follows it
         if m != want:
             rep.disagree(fn, case, m, want)
             if fn.startswith("model self-check"):
